@@ -193,7 +193,7 @@ type c20Inst struct {
 	rtoN      int
 	rttN      int
 	hugeUsed  bool
-	burstDone bool // no clock step since the last burst (a second burst would be empty)
+	burstDone bool          // no clock step since the last burst (a second burst would be empty)
 	minRTTAck time.Duration // MinRTT at the previous ack event
 	recs      []c20Rec
 	outcome   string
